@@ -375,7 +375,40 @@ class Tr(object):
             return self.call(n)
         self.fail(n, 'unsupported expression')
 
+    def static_seq(self, n):
+        """(ok, python list) for an iteration source built only from constants, range() and list concatenation"""
+        if isinstance(n, ast.Constant) and isinstance(n.value, str):
+            return True, list(n.value)
+        if isinstance(n, (ast.List, ast.Tuple)):
+            out = []
+            for e in n.elts:
+                if isinstance(e, ast.Constant) and isinstance(e.value, (int, str)) and not isinstance(e.value, bool):
+                    out.append(e.value)
+                else:
+                    return False, None
+            return True, out
+        if isinstance(n, ast.Call) and isinstance(n.func, ast.Name) and not n.keywords:
+            if n.func.id == 'range' and 1 <= len(n.args) <= 2:
+                vals = []
+                for a in n.args:
+                    ok, v = self.fold_int(a)
+                    if not ok:
+                        return False, None
+                    vals.append(v)
+                return True, list(range(*vals))
+            if n.func.id == 'list' and len(n.args) == 1:
+                return self.static_seq(n.args[0])
+        if isinstance(n, ast.BinOp) and isinstance(n.op, ast.Add):
+            o1, a = self.static_seq(n.left)
+            o2, b = self.static_seq(n.right)
+            if o1 and o2:
+                return True, a + b
+        return False, None
+
     def iter_src(self, it):
+        ok, seq = self.static_seq(it)
+        if ok:
+            return '(EConst (PList %s))' % clist([const_pv(x, self.enums) for x in seq])
         if isinstance(it, ast.Call) and isinstance(it.func, ast.Name) and it.func.id == 'range' and not it.keywords:
             if len(it.args) == 1:
                 return '(ERange %s)' % self.expr(it.args[0])
